@@ -602,6 +602,10 @@ func (ro *RedisOutput) sendRdb(pctx context.Context, reader ChannelReader) error
 	ro.logger.Debugf("send rdb OK : runId(%s), offset(%d), size(%d)", reader.RunId(), reader.Left(), reader.Size())
 	if ro.bisyncEnabled() {
 		ro.bisyncOffset.Store(reader.Left())
+		// before the root checkpoint : a root checkpoint without a frontier is the state this write removes
+		if err := ro.saveBisyncBaselineFrontier(ctx, reader.RunId(), reader.Left()); err != nil {
+			return err
+		}
 	}
 
 	return ro.setCheckpoint(ctx, reader.RunId(), reader.Left(), config.Version)
